@@ -313,6 +313,7 @@ var specFuncs = map[string]types.Type{
 	"NL": types.Typ[types.Int], "LS": types.Typ[types.Int], "LE": types.Typ[types.Int],
 	"tolower": types.Typ[types.String], "sindex": types.Typ[types.Int], "hasprefix": types.Typ[types.Bool], "sconcat": types.Typ[types.String],
 	"u16": types.Typ[types.Int], "bnd": types.Typ[types.Bool], "vld": types.Typ[types.Bool], "step": types.Typ[types.Int], "runelen": types.Typ[types.Int],
+	"dscale": types.Typ[types.Int],
 	"rcount": types.Typ[types.Int], "runeat": types.Typ[types.Int],
 	"lsof": types.Typ[types.Int], "nlb": types.Typ[types.Int], "fmtint": types.Typ[types.String], "unfmtint": types.Typ[types.Int],
 	"skipsp": types.Typ[types.Int], "width": types.Typ[types.Int], "rune": types.Typ[types.Int], "u16w": types.Typ[types.Int],
@@ -477,8 +478,20 @@ func (fr *Frame) tr(e ast.Expr, env *Env) Val {
 		case token.LOR:
 			return Val{fmt.Sprintf("(or %s %s)", l.T, r.T), b}
 		case token.EQL:
+			if strings.HasPrefix(l.T, "@addr") || strings.HasPrefix(r.T, "@addr") {
+				if l.T == r.T {
+					return Val{"true", b}
+				}
+				return Val{"false", b} // the address of a location is never nil (and stand-ins are only compared with nil)
+			}
 			return Val{fmt.Sprintf("(= %s %s)", l.T, r.T), b}
 		case token.NEQ:
+			if strings.HasPrefix(l.T, "@addr") || strings.HasPrefix(r.T, "@addr") {
+				if l.T == r.T {
+					return Val{"false", b}
+				}
+				return Val{"true", b}
+			}
 			return Val{fmt.Sprintf("(not (= %s %s))", l.T, r.T), b}
 		case token.LSS:
 			return Val{fmt.Sprintf("(< %s %s)", l.T, r.T), b}
@@ -685,6 +698,13 @@ func (fr *Frame) tr(e ast.Expr, env *Env) Val {
 func (fr *Frame) selectField(base Val, name string, env *Env) Val {
 	c := fr.ctx
 	t := base.Typ
+	if a, ok := c.addrVals[base.T]; ok {
+		// pointer stand-in: read the addressed struct in the state of the clause, then select on the value
+		if pt, ok := t.Underlying().(*types.Pointer); ok {
+			v := fr.load0(env.st, a, token.NoPos)
+			return fr.selectField(Val{v.T, pt.Elem()}, name, env)
+		}
+	}
 	if p, ok := t.Underlying().(*types.Pointer); ok {
 		n := p.Elem().(*types.Named)
 		st := n.Underlying().(*types.Struct)
